@@ -112,6 +112,26 @@ chk("C23", "regex newline-reachability by DFA search selects multi-line token ki
     "Trusted: syn parse, regex-automata DFA. Positions computed by checker fixes and the LSP layer are out of scope.",
     "DESIGN.md section 4 C23")
 
+chk("C01", "MIR panic-site inventory over the front end's reachable functions with dominance/dataflow discharge rules and a reviewed residue table whose guards are re-checked; parser progress-assertion idiom rule; pop/unpop pairing typestate",
+    "Every panic-capable MIR operation (Assert terminators; unwrap/expect/panic!/unreachable!/assert!; indexing, slicing, RefCell borrows and the panicking-API table) in the functions reachable from the lexer, parser, checker and formatter entry points is enumerated; each is discharged by a small static proof (dominating length/arity/peek test, unsigned-add assumption, regex literal compiles, guard live ranges for RefCell) or by a reviewed row naming the guard it relies on; a new or unguarded site is reported with a call path. Decides the no-panic reading of C01 for all inputs; hangs and stack depth are only covered where listed.",
+    "Trusted: rustc MIR and callee resolution (class-hierarchy fallback for unresolved trait calls); the panicking-API table stands in for dependency code; reviewed residue rows are human arguments (150 rows, each with its reason, guards re-checked). Known findings: the parser's end-of-file handling in parse_symbol (three progress assertions, unbounded recursion/loops).",
+    "DESIGN.md sections 3 and 4 C01")
+
+chk("C02", "MIR panic-site inventory over everything reachable from eval::eval (D-ARITY for built-in argument indexing, D-FRAME who-may-shrink, D-BORROW guard live ranges + transitive borrow summaries, D-DISPATCH, D-SLICEORDER); who-may-write rule for the value/expression stacks",
+    "As C01, over the 590 functions the evaluator can reach: decides for all programs that no reachable Rust panic site is left unargued. The value-stack pops are a reviewed class backed by the who-may-write rule VALSTACK-WRITERS.",
+    "Trusted: as C01. D-VALSTACK assumes each scheduled sub-expression pushes exactly one value (not proved; the known finding `1 + continue` inside a for body is the recorded counterexample class). Drop-glue recursion on deeply nested values is outside MIR call facts.",
+    "DESIGN.md sections 3 and 4 C02")
+
+chk("C09", "MIR panic-site inventory over the JSON worker thread's reachable code; interval path-count dataflow (exactly one print_as_json per request path, callee summaries); worker-loop exit shape; SKIP-BALANCE and VALSTACK-WRITERS who-may-write rules",
+    "A panic on the worker thread loses every later request, so the inventory of C01/C02 is taken from handle_request_in_worker / eval_worker / handle_request; RESPONSE-ONCE proves min=max=1 responses on every CFG path of the request handler (Interrupt answered by the reader thread).",
+    "Trusted: as C01/C02. Content and order of responses are not decided; the stdin framing loop is out of scope.",
+    "DESIGN.md section 4 C09")
+
+chk("C28", "MIR panic-site inventory over lsp::run_lsp's reachable code; per-method region path-count (exactly one response iff an id is present, none for notifications); loop-exit shape; pipeline agreement with `garden check`",
+    "Panic-freedom of every handler the server can run is decided as in C01; ARM-SHAPE decides on handle_message's CFG that each of the 12 request methods answers exactly once when an id is present and that notifications never answer; the server loop leaves only on end of input or `exit`.",
+    "Trusted: as C01; serde serialisation of the server's own response types does not fail. Range conversion correctness (C29) and equality of diagnostics beyond the pipeline shape are not decided.",
+    "DESIGN.md section 4 C28")
+
 ENGINES = [
  {"name": "gfacts", "path": "tools/gfacts", "kind_free_text": "rustc_private driver (nightly) dumping the type-checked MIR (CFG, resolved callees, asserts, places with field names) of every function of the garden crate as JSON; run as RUSTC_WORKSPACE_WRAPPER under cargo +nightly check on /repo's current tree"},
  {"name": "gshape", "path": "tools/gshape", "kind_free_text": "syn-2 syntax tree dumper (match arms, patterns, literals, struct initialisers) for table/shape rules"},
